@@ -67,14 +67,31 @@
 (*   FsBailOutSkipsLast  after FsRetries+1 FilesystemInconsistencyErrors   *)
 (*                       the monitor returns: no last action               *)
 (*                       (CancelLeadsToLastAction)                         *)
+(*   SimCodeBeforeState  poll() publishes the observed return code before  *)
+(*                       the observed state: returncode can be set while   *)
+(*                       isAlive() is still True (SimCodeOnlyWhenDead)     *)
 (*   SimKillWaitsOut     SimulatorTask.kill() while "submitted" is only    *)
 (*                       honoured after the full execution time            *)
+(*                       (SimKillAbortsExecution)                          *)
+(*   SimKillLost         statement level: _run tests `_real_return_code is *)
+(*                       None`, kill() writes -9, _run writes the expected *)
+(*                       code over it (SimKillSticks, Fine = TRUE)         *)
 (*   SimKillRewritesExit kill() between the real end and the next poll     *)
 (*                       turns a finished task into a Killed one           *)
 (*                       (SimFinishedStaysFinished)                        *)
 (*   SimTornPoll         poll() reads _real_state and _real_return_code    *)
 (*                       without the lock: observed finished / code None   *)
-(*                       (SimDeadHasCode) -- a FINDING, see g04.py         *)
+(*                       (SimDeadHasCode) -- a FINDING, see g04.py; switch *)
+(*                       SimStateLast = TRUE models the repaired code      *)
+(*   ModelSystemError    MonitorExceptionTracker counts the BUILTIN        *)
+(*                       SystemError and FilesystemInconsistencyError as   *)
+(*                       system errors, not experiment.model.errors.       *)
+(*                       SystemError (IsSystem, kind "msys")               *)
+(* Observed, not modelled: SimulatorTask.poll() returns None whatever the  *)
+(* state and re-arms its own 1 s thread chain (the Task interface says it  *)
+(* returns the return code); Create*(cancelEvent=<not an Event>) raises     *)
+(* TypeError (`.with_traceback(cancelEvent)`), the docstrings say          *)
+(* ValueError.                                                             *)
 (***************************************************************************)
 EXTENDS Integers, Sequences, FiniteSets, TLC, Json
 
@@ -662,6 +679,7 @@ SimDeadHasCode == (sos = "finished") => sor # NoRc                          \* S
 SimCodeOnlyWhenDead == sor # NoRc => ~SimAlive                              \* SimCodeBeforeState
 SimFinishedStaysFinished == [][(sfile = "finished") => srr' = srr]_vars     \* SimKillRewritesExit
 SimKillAbortsExecution == [][(srr = -9 /\ srun = "x1") => srun' # "cwait"]_vars    \* SimKillWaitsOut
+SimKillSticks == [][(srr = -9) => srr' \in {-9, 1}]_vars                    \* SimKillLost (statement level: Fine)
 
 -----------------------------------------------------------------------------
 (* 4. returncode -> exitReason / status, every code the implementations      *)
